@@ -72,10 +72,10 @@ func (s *Shape) String() string {
 }
 
 type shaper struct {
-	a       *A
-	memo    map[ssa.Value]*Shape
-	inprog  map[ssa.Value]bool
-	depth   int
+	a        *A
+	memo     map[ssa.Value]*Shape
+	inprog   map[ssa.Value]bool
+	depth    int
 	impure   []string
 	callers  []*ssa.Function
 	typeTags bool
@@ -864,7 +864,7 @@ func (sh *shaper) frame(s *Shape) *Shape {
 }
 
 func sameRaw(v ssa.Value, s *Shape) bool { return s.K == "raw" && s.Of == v }
-func isDigit(b byte) bool             { return b >= '0' && b <= '9' }
+func isDigit(b byte) bool                { return b >= '0' && b <= '9' }
 
 // firstSet describes the possible first bytes of a shape: a literal prefix, a class, or anything.
 type firstSet struct {
